@@ -264,7 +264,41 @@ fn sequence_with_aliases(rng: &mut Rng) -> &'static str {
     Box::leak(s.into_boxed_str())
 }
 
+/// escape sequences as real terminals define them — palette, clipboard, hyperlink with id, shell
+/// integration, true-colour and private-mode CSIs — each, one time in two, with further payload
+/// before the terminator: a special case for one command family ("`ESC ] P nrrggbb` has no
+/// terminator") is wrong exactly when the command is followed by more payload
+pub fn real_sequence(rng: &mut Rng) -> &'static str {
+    const OSC: &[&str] = &["P1c2d3e4", "Pf0a1b2c", "R", "4;1;rgb:ff/00/00", "52;c;aGVsbG8=", "8;id=a1;http://x.y", "0;title", "2;t", "10;?", "104", "1337;File=name=YQ==:", "777;notify;a;b", "133;A", "9;4;1;50", "7;file://h/p", "1;icon", "112", "L label"];
+    const CSI: &[&str] = &["?25h", "?1049l", "38;2;1;2;3m", "38:5:1m", "2J", "1;1H", ">0c", "!p", "?2004h", "6n", "1;2;3;4;5;6;7;8m", "=1c", "0K"];
+    let s = if rng.chance(2, 3) {
+        let head = *rng.pick(OSC);
+        let more = if rng.chance(1, 2) { *rng.pick(&[";some more payload", "zz", "0123456789abcdef", " x", "字"]) } else { "" };
+        let more = if more == " x" { "_x" } else { more }; // no space inside a sequence (KF-1a)
+        let head = head.replace(' ', "_");
+        format!("\x1b]{}{}{}", head, more, if rng.chance(1, 2) { "\x07" } else { "\x1b\\" })
+    } else {
+        format!("\x1b[{}", *rng.pick(CSI))
+    };
+    Box::leak(s.into_boxed_str())
+}
+
+/// a run of one repeated blank, as long as or longer than a machine word / SIMD lane (8, 16, 32,
+/// 64 bytes ± 1): word-at-a-time fast paths (`chunks_exact`, SWAR) go wrong in the tail after
+/// whole blocks, which a run of one to three blanks never reaches
+pub fn blank_run(rng: &mut Rng) -> String {
+    let k = [7usize, 8, 9, 10, 12, 15, 16, 17, 23, 24, 25, 31, 32, 33, 63, 64, 65][rng.below(17)];
+    let c = *rng.pick(&[" ", " ", " ", "\t", "\u{a0}"]);
+    c.repeat(k)
+}
+
 fn token(rng: &mut Rng, fl: Flavor) -> &'static str {
+    if matches!(fl, Flavor::AnsiOk | Flavor::Mixed) && rng.chance(1, 15) {
+        return real_sequence(rng);
+    }
+    if rng.chance(1, 60) {
+        return Box::leak(blank_run(rng).into_boxed_str());
+    }
     if matches!(fl, Flavor::AnsiOk | Flavor::Mixed) && rng.chance(1, 120) {
         return long_sequence(rng);
     }
